@@ -130,23 +130,36 @@ def covered (sym : String × List Nat × Nat) : Bool :=
 
 /-! ### printing declarations / definitions (z3 `to_smt2` layout; `refine`'s template layout) -/
 
-def sortStr (w : Nat) : String := "(_ BitVec " ++ toString w ++ ")"
+/-- decimal digits of a width -/
+def digits (w : Nat) : List Char := Nat.toDigits 10 w
 
-def printBody (op : String) (w : Nat) : Body → String
-  | .x => "x"
-  | .y => "y"
-  | .zero => "(_ bv0 " ++ toString w ++ ")"
-  | .app a b => "(" ++ op ++ " " ++ printBody op w a ++ " " ++ printBody op w b ++ ")"
+/-- `(_ BitVec w)` -/
+def sortStr (w : Nat) : List Char := ['(', '_', ' ', 'B', 'i', 't', 'V', 'e', 'c', ' '] ++ digits w ++ [')']
+
+def smtNameC (op : BinOp) : List Char := (smtName op).toList
+
+def printBody (op : List Char) (w : Nat) : Body → List Char
+  | .x => ['x']
+  | .y => ['y']
+  | .zero => ['(', '_', ' ', 'b', 'v', '0', ' '] ++ digits w ++ [')']
+  | .app a b => ['('] ++ op ++ [' '] ++ printBody op w a ++ [' '] ++ printBody op w b ++ [')']
   | .iteEq a b t e =>
-    "(ite (= " ++ printBody op w a ++ " " ++ printBody op w b ++ ") " ++ printBody op w t ++ " " ++ printBody op w e ++ ")"
+    ['(', 'i', 't', 'e', ' ', '(', '=', ' '] ++ printBody op w a ++ [' '] ++ printBody op w b ++ [')', ' '] ++ printBody op w t ++ [' ']
+      ++ printBody op w e ++ [')']
 
-def printCmd : Cmd → String
+def joinSp : List (List Char) → List Char
+  | [] => []
+  | [a] => a
+  | a :: as => a ++ [' '] ++ joinSp as
+
+/-- the line z3's `to_smt2` prints for a declaration / the line `refine`'s template gives for a definition -/
+def printCmd : Cmd → List Char
   | .declareFun name args res =>
-    "(declare-fun " ++ name ++ " (" ++ " ".intercalate (args.map sortStr) ++ ") " ++ sortStr res ++ ")"
+    ['(', 'd', 'e', 'c', 'l', 'a', 'r', 'e', '-', 'f', 'u', 'n', ' '] ++ name.toList ++ [' ', '('] ++ joinSp (args.map sortStr) ++ [')', ' '] ++ sortStr res ++ [')']
   | .defineFun name w op body =>
-    "(define-fun " ++ name ++ " ((x " ++ sortStr w ++ ") (y " ++ sortStr w ++ ")) " ++ sortStr w ++ " "
-      ++ printBody (smtName op) w body ++ ")"
-  | _ => ""
+    ['(', 'd', 'e', 'f', 'i', 'n', 'e', '-', 'f', 'u', 'n', ' '] ++ name.toList ++ [' ', '(', '(', 'x', ' '] ++ sortStr w ++ [')', ' ', '(', 'y', ' '] ++ sortStr w ++ [')', ')', ' ']
+      ++ sortStr w ++ [' '] ++ printBody (smtNameC op) w body ++ [')']
+  | _ => []
 
 /-! ## paths -/
 
